@@ -45,6 +45,7 @@ Fixpoint ops_dt (d : dt string) : list hop :=
   | DCanon c => ops_canon c
   | DPar l r => [OpParStart] ++ ops_dts l ++ [OpParEnd true] ++ ops_dts r ++ [OpParEnd false]
   | DFold id gs => [OpFoldStart id] ++ ops_gens id gs ++ [OpFoldEnd id]
+  | DGens us => map (fun pg => OpUpdateGen (fst pg) (snd pg)) us
   end
 with ops_dts (ds : dts string) : list hop :=
   match ds with
